@@ -47,13 +47,14 @@ int verif_setsockopt(int fd, int level, int optname, const void *optval, socklen
 	CHECK(fd >= 0 && fd < NFD && fd_state[fd] == FD_OPEN, "C07.syscall_on_open_descriptor");
 	return (sockopt_calls++ == fail_sockopt_at) ? -1 : 0;
 }
-static int accept_calls, accept_errno_first, accept_gives_fd;
+static int accept_calls, accept_errno_first, accept_gives_fd, second_queued;   /* second_queued: a healthy connection is queued behind the first attempt */
 int verif_accept(int fd, struct sockaddr *addr, socklen_t *len)
 {
 	(void)fd; (void)len;
 	accept_calls++;
 	if (accept_calls == 1 && !accept_gives_fd) { errno = accept_errno_first; return -1; }
 	if (accept_calls == 1) { fd_state[9] = FD_OPEN; addr->sa_family = (sa_family_t)family; return 9; }
+	if (accept_calls == 2 && second_queued) { fd_state[10] = FD_OPEN; addr->sa_family = (sa_family_t)family; return 10; }
 	errno = EAGAIN;
 	return -1;
 }
@@ -132,6 +133,11 @@ static int transient_accept_errno(int e)
 	       e == ENOPROTOOPT || e == EHOSTDOWN || e == ENONET || e == EHOSTUNREACH || e == EOPNOTSUPP ||
 	       e == ENETUNREACH || e == EMFILE || e == ENFILE || e == ENOBUFS || e == ENOMEM;
 }
+static int per_attempt_accept_errno(int e)
+{
+	return e == ECONNABORTED || e == EINTR || e == EPROTO || e == ENETDOWN || e == ENOPROTOOPT || e == EHOSTDOWN || e == ENONET ||
+	       e == EHOSTUNREACH || e == EOPNOTSUPP || e == ENETUNREACH;
+}
 static int peers_seen, seen_local;
 static void count_peer(struct io_event *ev, int fd, bool is_local) { (void)ev; peers_seen++; seen_local = is_local; verif_close(fd); }
 void harness_accept(void)
@@ -140,15 +146,22 @@ void harness_accept(void)
 	fd_state[3] = FD_OPEN;
 	accept_gives_fd = nd_bool();
 	accept_errno_first = nd_int();
+	second_queued = nd_bool();
 	family = AF_INET;
 	enum eventloop_return r = accept_common(&ev, count_peer);
 	if (!accept_gives_fd && transient_accept_errno(accept_errno_first)) {
 		CHECK(r != EL_ABORT_LOOP, "C11.transient_accept_error_does_not_stop_daemon");
 		REACH("transient_error");
 	}
-	if (accept_gives_fd) { CHECK(peers_seen == 1 && r == EL_CONTINUE_LOOP, "C11.accepted_connection_is_served"); REACH("accepted"); }
+	if (accept_gives_fd) { CHECK(peers_seen == 1 + second_queued && r == EL_CONTINUE_LOOP, "C11.accepted_connection_is_served"); REACH("accepted"); }
+	/* the listener is registered edge-triggered: an attempt that failed for reasons of its own (accept(2): aborted, interrupted,
+	   or a network error already pending on the new socket) must not keep the connection queued behind it from being accepted */
+	if (!accept_gives_fd && second_queued && per_attempt_accept_errno(accept_errno_first)) {
+		CHECK(peers_seen == 1 && r == EL_CONTINUE_LOOP, "C11.connection_queued_behind_a_failed_attempt_is_still_accepted");
+		REACH("queued_behind_failed_attempt");
+	}
 	CHECK(fd_state[3] == FD_OPEN, "C11.listener_stays_open");
-	CHECK(accept_calls <= 3, "C11.accept_loop_terminates");
+	CHECK(accept_calls <= 4, "C11.accept_loop_terminates");
 	WITNESS_END();
 }
 
